@@ -344,11 +344,18 @@ func lexComment(l *lexer) stateFn {
 		return lexEOF
 	}
 
-	for unicode.IsSpace(rune(l.input[l.pos+i-1])) {
-		i -= 1
+	// The comment runs up to the line break. Trailing ASCII white space (e.g. the CR of
+	// a CRLF line end) is left out of the token value, but it is still part of the
+	// comment: it must not be handed back to the lexer.
+	end := l.pos + i
+	tokenEnd := end
+	for tokenEnd > l.pos && isASCIISpace(l.input[tokenEnd-1]) {
+		tokenEnd -= 1
 	}
-	l.pos += i
+	l.pos = tokenEnd
 	l.emit(tokenTypeComment)
+	l.pos = end
+	l.ignore()
 	return l.lastState
 }
 
@@ -437,6 +444,11 @@ func lexNumber(l *lexer) stateFn {
 // isAlphaNumeric reports whether r is an alphabetic, digit, or underscore.
 func isAlphaNumeric(r rune) bool {
 	return r == '_' || unicode.IsLetter(r) || unicode.IsDigit(r)
+}
+
+// isASCIISpace reports whether b is an ASCII white space byte other than line feed.
+func isASCIISpace(b byte) bool {
+	return b == ' ' || b == '\t' || b == '\r' || b == '\v' || b == '\f'
 }
 
 // isDigit reports whether r is a digit.
